@@ -38,6 +38,7 @@ def contract(target, **meta):
 
 
 class NS:
+    _pyvc_symbolic = True
     """Namespace object handed to invariants: attribute access to frame locals / ghosts."""
 
     def __init__(self, d, parent=None):
@@ -46,6 +47,7 @@ class NS:
 
 
 class QuantVal:
+    _pyvc_symbolic = True
     """Result of forall(...) in a contract: positive positions only."""
 
     def __init__(self, roles, body, guard, name="forall"):
